@@ -158,7 +158,7 @@ def run_single(case):
 
     dep = DependenceFunction(f, bounds=bounds, constraints=cons, weights=wfun)
     names = list(dep.parameters)
-    if start == "near":
+    if start in ("near", "near_reversed_keys"):
         p0 = {nme: t * 1.15 + 0.05 for nme, t in zip(names, th)}
         # start must be feasible for the bounds
         if bounds is not None:
@@ -167,8 +167,9 @@ def run_single(case):
                     p0[nme] = lo + 0.05
                 if hi is not None and p0[nme] > hi:
                     p0[nme] = hi - 0.05
-        dep.parameters = dict(p0)
-    p_start = np.array(list(dep.parameters.values()), dtype=float)
+        # the start values as a dict keyed by name; "reversed": the same dict with its keys in the opposite order
+        dep.parameters = dict(p0) if start == "near" else dict(reversed(list(p0.items())))
+    p_start = np.array([dep.parameters[nme] for nme in names], dtype=float)
     try:
         dep.fit(x, y)
     except NotImplementedError:   # weighted AND constrained fitting is documented as not implemented
@@ -183,7 +184,7 @@ def run_single(case):
     except Exception as e:
         bad("exception", {"type": type(e).__name__, "msg": str(e)[:200]})
         return {"viol": viol, "n": 1, "nontrivial": 1}
-    p = np.array(list(dep.parameters.values()), dtype=float)
+    p = np.array([dep.parameters[nme] for nme in names], dtype=float)
     w = None if wfun is None else np.asarray(wfun(x, y), dtype=float)
     if not np.all(np.isfinite(p)):
         bad("non_finite", {"params": p})
@@ -504,7 +505,7 @@ def main(ctx):
                        "zero_both_inactive"):
                 for wk in WEIGHTS:
                     for ck in ("none", "dict_inactive", "dict_active", "list_two"):
-                        for start in ("default", "near"):
+                        for start in ("default", "near", "near_reversed_keys"):
                             cases.append({"kind": "single", "shape": shape, "n": n, "bounds": bk, "weights": wk,
                                           "constraints": ck, "start": start})
     nsingle = len(cases)
